@@ -153,7 +153,7 @@ impl Prop for C19 {
     }
     fn runs(&self, tier: Tier) -> u64 {
         match tier {
-            Tier::Quick => 480,
+            Tier::Quick => 960,
             Tier::Thorough => 10000,
         }
     }
